@@ -104,6 +104,9 @@ func checkWriterBufIsLeafSized(c *Ctx, rule string) {
 			// a helper of the package returning such a buffer for its own leaf-size parameter
 			if h := p.FuncOpt(calleeID(info, x)); h != nil && h.Decl.Body != nil && depth < 1 {
 				okAll, nRet := true, 0
+				savedAny := leafParamAny
+				leafParamAny = true
+				defer func() { leafParamAny = savedAny }()
 				ast.Inspect(h.Decl.Body, func(m ast.Node) bool {
 					if _, isLit := m.(*ast.FuncLit); isLit {
 						return false
@@ -179,6 +182,11 @@ func checkWriterBufIsLeafSized(c *Ctx, rule string) {
 	}
 }
 
+// isLeafSizeParam: e names a parameter of f that carries the leaf size — by role, not by name: the parameter f stores
+// into the leafSize field of the fsWriter it builds; inside a helper reached from such a function (leafParamAny), any
+// integer parameter (the call site is required to pass the leaf size).
+var leafParamAny bool
+
 func isLeafSizeParam(f *FuncInfo, e ast.Expr) bool {
 	id, ok := ast.Unparen(e).(*ast.Ident)
 	if !ok {
@@ -189,18 +197,30 @@ func isLeafSizeParam(f *FuncInfo, e ast.Expr) bool {
 		}
 		return false
 	}
-	v, ok := f.Info().Uses[id].(*types.Var)
-	if !ok || f.Decl.Type.Params == nil {
+	info := f.Info()
+	v, ok := info.Uses[id].(*types.Var)
+	if !ok || !isParamOf(f, v) || len(defsOfVarWithIndex(f, v)) != 0 {
 		return false
 	}
-	for _, fl := range f.Decl.Type.Params.List {
-		for _, nm := range fl.Names {
-			if f.Info().Defs[nm] == v && strings.EqualFold(nm.Name, "leafSize") {
-				return len(defsOfVarWithIndex(f, v)) == 0
-			}
-		}
+	bt, ok := v.Type().Underlying().(*types.Basic)
+	if !ok || bt.Info()&types.IsInteger == 0 {
+		return false
 	}
-	return false
+	if leafParamAny {
+		return true
+	}
+	role := false
+	ast.Inspect(f.Decl.Body, func(n ast.Node) bool {
+		cl, ok := n.(*ast.CompositeLit)
+		if !ok || namedTypeID(info.TypeOf(cl)) != "pkg/cafs.fsWriter" {
+			return true
+		}
+		if fv := fieldOfCompositeLit(cl, "leafSize"); fv != nil && isVar(info, fv, v) {
+			role = true
+		}
+		return true
+	})
+	return role
 }
 
 // checkGlobCacheWriters (C07, C16): the per-prefix listing remembered by localfs.KeysPrefix is the snapshot one fetch
